@@ -38,7 +38,28 @@ func (p *c10) Init(tier string, seed int64) {
 	p.nRand = p.pick(3000, 200000)
 }
 
-func (p *c10) N() int { return p.nEnum + p.nRand + c10nSelf + c10nOdd }
+func (p *c10) N() int { return p.nEnum + p.nRand + c10nSelf + c10nOdd + c10nNest }
+
+// c10nNest: an embed inside an override of an embed (two and three deep), with further overrides of the outer embed
+// after it and a block of the host after the whole: every override belongs to the embed whose body it stands in.
+const c10nNest = 3
+
+func (p *c10) buildNest(j int) (*Program, string) {
+	blk := func(n string, body ...gen.Node) *gen.NBlock { return &gen.NBlock{Name: n, Body: body} }
+	inner := &gen.NEmbed{Tpl: str("tgt2"), Blocks: []*gen.NBlock{blk("ta", tx("inner-ta"))}}
+	if j >= 1 {
+		inner.Blocks = append(inner.Blocks, blk("tb", tx("inner-tb("), &gen.NEmbed{Tpl: str("tgt"), Blocks: []*gen.NBlock{blk("bb", tx("deep-bb"))}}, tx(")")))
+	}
+	outer := &gen.NEmbed{Tpl: str("tgt"), Blocks: []*gen.NBlock{blk("ba", tx("[ov-ba "), inner, tx("]")), blk("bb", tx("ov-bb"), pr(&gen.EParent{}))}}
+	host := []gen.Node{tx("H("), outer, tx("|"), blk("hostblock", tx("host")), tx("|"), &gen.NEmbed{Tpl: str("tgt2"), Blocks: []*gen.NBlock{blk("tb", tx("second-tb"))}}, tx(")")}
+	if j == 2 {
+		host = []gen.Node{tx("H("), blk("wrap", tx("w["), outer, tx("]")), tx("|"), &gen.NEmbed{Tpl: str("tgt"), Blocks: []*gen.NBlock{blk("ba", tx("last-ba"))}}, tx(")")}
+	}
+	ts := map[string]*gen.Template{"main": tpl("main", host...),
+		"tgt":  tpl("tgt", tx("T("), blk("ba", tx("ba0")), tx("/"), blk("bb", tx("bb0")), tx(")")),
+		"tgt2": tpl("tgt2", tx("T2("), blk("ta", tx("ta0")), tx("/"), blk("tb", tx("tb0")), tx(")"))}
+	return &Program{Templates: ts, Main: "main", Ctx: map[string]interface{}{}}, fmt.Sprintf("nested-embeds/%d", j)
+}
 
 // c10nOdd: with-values that are no hash (a list, a number, a string, a boolean). What the target then sees is not
 // claimed - but the construct is over when it is over: the names visible after it are the names visible before it,
@@ -456,6 +477,12 @@ func (p *c10) build(i int) (*Program, string, bool) {
 }
 
 func (p *c10) Describe(i int) interface{} {
+	if i >= p.nEnum+p.nRand+c10nSelf+c10nOdd {
+		prog, sig := p.buildNest(i - (p.nEnum + p.nRand + c10nSelf + c10nOdd))
+		d := prog.describe()
+		d["coordinates"] = sig
+		return d
+	}
 	if i >= p.nEnum+p.nRand+c10nSelf {
 		prog, sig := p.buildOdd(i - (p.nEnum + p.nRand + c10nSelf))
 		d := prog.describe()
@@ -469,6 +496,15 @@ func (p *c10) Describe(i int) interface{} {
 }
 
 func (p *c10) Run(i int) (res fw.Result) {
+	if i >= p.nEnum+p.nRand+c10nSelf+c10nOdd {
+		prog, sig := p.buildNest(i - (p.nEnum + p.nRand + c10nSelf + c10nOdd))
+		if _, _, ok := modelCase(&res, "c10:"+sig, prog, gen.Canon{}, true); !ok {
+			res.Fail("harness", "c10:oor:"+sig, "case left the model's region ("+lastLayout+")", prog.describe())
+		}
+		res.AddClass("nested-embeds")
+		res.UniqueNT = 1
+		return
+	}
 	if i >= p.nEnum+p.nRand+c10nSelf {
 		p.runOdd(&res, i-(p.nEnum+p.nRand+c10nSelf))
 		return
